@@ -148,6 +148,8 @@ def flags_block(mo):
         out.append("handled-failure-tie")
     if f.ambiguous_calls:
         out.append("ambiguous-call-index")
+    if getattr(f, "big_data", False):
+        out.append("data-near-quota")
     return out
 
 
